@@ -48,6 +48,7 @@ func reportGated(c *vf.Ctx, r gatedResult) {
 		return
 	}
 	for _, cl := range workerClasses(r.Cfg.Workers) {
+		c.Count("tasks_cancelled_by_leftover_signal_while_running", r.CancelledWhileRunning)
 		c.Count("gated_workers_class:"+cl, 1)
 	}
 	if r.Cfg.Kind == "options" {
